@@ -820,6 +820,12 @@ func (lr *libRun) c01Reads() {
 				e.Violate("C01.fetch-panic", "FetchFromArchive(%d, now-%d, now-%d) panicked: %s", id, now-w.from, now-w.until, pan)
 				return
 			}
+			if err != nil && model.Shape(lr.archs, id, w.from, w.until, now).Kind == model.ShapeSeries {
+				// which windows give a series is C04's contract; a window that does
+				// and whose fetch fails on a file this history wrote reports no slot at all
+				e.Violate("C01.projection", "FetchFromArchive(%d, now-%d, now-%d) failed on a file written by this history alone: %v", id, now-w.from, now-w.until, err)
+				return
+			}
 			if err != nil || ts == nil {
 				continue // shape is C04's business
 			}
